@@ -563,6 +563,13 @@ var c19BadDocs = []struct {
 	{"target-refuses-time", []byte(`{"t":"yesterday"}`)},
 	{"target-refuses-ip", []byte(`{"ip":"999.1.1.1"}`)},
 	{"target-refuses-text", []byte(`{"u":"lower"}`)},
+	// a valid document behind bytes that are not JSON white space (RFC 8259: space, tab, LF, CR only)
+	{"prefixed-utf8-bom", []byte("\xef\xbb\xbf{\"a\":1}")},
+	{"prefixed-nul", []byte("\x00{\"a\":1}")},
+	{"prefixed-nbsp", []byte("\xc2\xa0{\"a\":1}")},
+	{"prefixed-vertical-tab", []byte("\v{\"a\":1}")},
+	{"suffixed-utf8-bom", []byte("{\"a\":1}\xef\xbb\xbf")},
+	{"suffixed-nul", []byte("{\"a\":1}\x00")},
 	// the transport ends cleanly after a non-final fragment whose bytes are a valid document on their own
 	{"cut-after-fragment-number", []byte(`12345`)},
 	{"cut-after-fragment-array", []byte(`[1]  ,2]`)},
